@@ -503,3 +503,73 @@ def resolve_env(crate, body, term, depth=0):
             return [sub(x) for x in t]
         return t
     return sub(term)
+
+
+# ---------------------------------------------------------------- outcome tables from path rows
+def cons_view(cons, meta):
+    """{subject: value} for the constraints that pin a subject: variant name for discriminants (also when all the other
+    variants are excluded), True/False for booleans, the constant otherwise"""
+    out = {}
+    for subj, op, v in cons:
+        names = dict((a, b) for a, b in meta.get(subj, [])) if subj in meta else None
+        if op == '==':
+            out[subj] = names.get(v, v) if names else v
+        elif op == 'notin' and names:
+            rest = [n for val, n in meta[subj] if val not in v]
+            if len(rest) == 1:
+                out[subj] = rest[0]
+        elif op == 'notin' and tuple(v) == (0,):
+            out[subj] = True
+        elif op == '!=' and v in (0, False):
+            out[subj] = True
+    return out
+
+
+def view_get(view, pred):
+    r = [v for k, v in view.items() if pred(k)]
+    return r[0] if len(r) == 1 else None
+
+
+def has_fn(term, name, owner=None):
+    """does the term call `name` (or pass the function item `name` to a combinator)"""
+    return term_contains(term, lambda x: isinstance(x, tuple) and x and ((x[0] == 'call' and x[3] == name and (owner is None or owner in x[1])) or (x[0] == 'fnitem' and x[1].split('::')[-1] == name and (owner is None or owner in x[1]))))
+
+
+def encode_body_rows(tonic):
+    """outcome table of <EncodeBody as Body>::poll_frame by feasible path: list of dict(ended, poll, item, res, role, kind, value, path, sets_end)"""
+    pf = tonic.body(re.compile(r'codec::encode::EncodeBody<T, U> as http_body::Body>::poll_frame$'))
+    meta = {}
+    rows = mirlib.path_rows(pf, meta=meta)
+    out = []
+    for cons, path in rows:
+        v = cons_view(cons, meta)
+        val = mirlib.simplify(pf.ret_on_path(path))
+        ended = view_get(v, lambda k: k.endswith('is_end_stream') and 'discr(' not in k)
+        if ended is not None and not isinstance(ended, bool):
+            ended = bool(ended)
+        polls = {k: x for k, x in v.items() if 'poll_next' in k}
+        poll = view_get(polls, lambda k: k.startswith('discr(') and ' as ' not in k.split('poll_next')[-1])
+        item = view_get(polls, lambda k: k.rstrip(')').endswith('as Ready.0'))
+        res = view_get(polls, lambda k: k.rstrip(')').endswith('as Some.0'))
+        role = view_get(v, lambda k: k.startswith('discr(') and k.rstrip(')').endswith('.role'))
+        if has_fn(val, 'data', 'Frame'):
+            kind = 'data'
+        elif has_fn(val, 'trailers', 'Frame') and has_fn(val, 'trailers', 'EncodeState'):
+            kind = 'state-trailers'
+        elif has_fn(val, 'trailers', 'EncodeState'):
+            kind = 'state-trailers'
+        elif has_fn(val, 'trailers', 'Frame'):
+            kind = 'trailers'
+        elif val[0] == 'agg' and val[1].get('variant') == 'Pending':
+            kind = 'pending'
+        elif term_contains(val, lambda x: x and x[0] == 'agg' and x[1].get('variant') == 'Err') or is_call(strip_refs(val), name='from_residual'):
+            kind = 'err'
+        elif term_contains(val, lambda x: x and x[0] == 'agg' and x[1].get('variant') == 'None') and not term_contains(val, lambda x: x and x[0] == 'agg' and x[1].get('variant') in ('Ok', 'Err')):
+            kind = 'none'
+        else:
+            kind = 'other'
+        sets = pf.writes_on_path(path, lambda p: mirlib.place_fields(p)[-1:] == ['is_end_stream'])
+        polled = any(pf.term(b_)['k'] == 'call' and pf.term(b_).get('name') == 'poll_next' for b_ in path)
+        out.append(dict(ended=ended, poll=poll, item=item, res=res, role=role, kind=kind, value=val, path=path, polled=polled,
+                        sets_end=[const_val(x[3]) for x in sets], cons=cons))
+    return pf, out
